@@ -152,8 +152,19 @@ fn bases<const N: usize>() -> Vec<(&'static str, Vec<R>)> {
     s3[N * N - 1] = (e.0 * (1i64 << 40) / e.1 + 1, 1i64 << 40);
     out.push(("tiny-det", s3));
     // every entry tiny (generic * 2^-20): the determinant is far below machine epsilon but not zero
-    let s4: Vec<R> = alphabet::generic(N * N, 0).iter().map(|r| (r.0, r.1 << 20)).collect();
+    // (exponent per dimension so that |det| <= f64 epsilon while the exact tier's i128 rationals still carry it)
+    let sh = [0, 0, 30, 25, 20][N];
+    let s4: Vec<R> = alphabet::generic(N * N, 0).iter().map(|r| (r.0, r.1 << sh)).collect();
     out.push(("tiny-scale", s4));
+    // affine: bottom row (0, ..., 0, 1) exactly - the shape transforms built from scales, rotations and
+    // displacements have, and the shape an "affine fast path" would test for
+    if N >= 3 {
+        let mut s5 = alphabet::generic(N * N, 3);
+        for c in 0..N {
+            s5[c * N + N - 1] = if c == N - 1 { (1, 1) } else { (0, 1) };
+        }
+        out.push(("affine", s5));
+    }
     out
 }
 fn add(a: R, b: R) -> R {
@@ -168,7 +179,7 @@ fn generic<T: Tier, M: MatN<T, N> + InvT<T>, const N: usize>(rep: &mut Report) {
     rep.cases(
         &format!("generic/{}", M::NAME),
         T::NAME,
-        &format!("7 bases (3 generic, 2 exactly singular without zero entries, 1 with det ~2^-40, 1 scaled by 2^-20 so that |det| << machine epsilon) x <= {k} deviations over A1"),
+        &format!("7-8 bases (3 generic, 2 exactly singular without zero entries, 1 with det ~2^-40, 1 scaled so that |det| << machine epsilon, for n >= 3 one affine with bottom row 0..0 1) x <= {k} deviations over A1"),
         bs.len() * dev.len(),
         Guard::states(100).need("singular", 2).need("invertible", 50).distinct(50).inconclusive(0.02),
         |i, ctx| {
